@@ -127,6 +127,8 @@ def coverage_gaps(classes, tier):
 
 def t_main(ctx):
     ctx.hyp(s_case(), ctx.n(300, 3000))
+    if ctx.shard == 0:
+        ctx.exhaustive.append('all 256 hash-type bytes for every generated (transaction, subscript, index) triple')
 
 
 TASKS = [('all256', (t_main, 16))]
